@@ -411,6 +411,14 @@ where
             }
             Some(Err(e)) => {
                 out.error = Some(format!("{:?}", e));
+                // a caller that logs the error and asks again (`filter_map(Result::ok)`, the Python loader's
+                // `__next__` after it raised): every request returns - whatever it returns
+                for _ in 0..3 {
+                    out.calls += 1;
+                    if it.next().is_none() {
+                        break;
+                    }
+                }
                 break;
             }
             Some(Ok(r)) => out.records.push(conv(r)),
